@@ -101,6 +101,14 @@ def check(repo, tier):
                         for k in range(1, d):
                             new, old = res._attrs['ranks'][k], sc.old_ranks[k]
                             if which == 'als':
+                                # ALS is a fixed-rank method: a bond changes only through the shape of an economic decomposition, never through a test on the data
+                                masked = sorted(a_ for a_ in (new.atoms() if hasattr(new, 'atoms') else ()) if str(sc.ctx.atoms.origin.get(a_) or '').startswith(('boolean mask', 'np.where')))
+                                run.oblige('D5', (entry, scen, f'rank{k}', 'fixed rank'), not masked)
+                                if masked:
+                                    fn = repo.fn(entry)
+                                    run.add(Finding('C07', 'D5', fn.where, 'ALS rank selection', f'{scen}: the rank of bond {k} of the result is the number of entries that pass a data-dependent test '
+                                                    f'({new}): ALS has no truncation -- a direction of a maximal-rank guess that fails the test is lost and the sweep is no longer exact', fn.file, fn.node.lineno))
+                                    continue
                                 good = l2rules.rank_le(sc, new, old)
                                 run.oblige('D5', (entry, scen, f'rank{k}'), good)
                                 if not good:
